@@ -1021,9 +1021,11 @@ theorem proveAndBuild_spec (cfg : Cfg) (l2 : List L2Blk) (hw : L2WF l2) (loc : L
       rowAt loc (r.height - 1) = some q → q.status = .settled → r.height ≠ 0 → q.new = x.prev)
     (p : Params) (retry : Nat) (prover : Prover) (hfrom : FromOK cfg (lastRow loc) p.from_) (hft : p.from_ ≤ p.to_)
     (hto : p.to_ ≤ lastProcessed l2) (hbr : p.bridges = bridgesIn l2 p.from_ p.to_)
-    (hcl : p.claims = claimsIn l2 p.from_ p.to_) (c : ACert) (r' tb : Nat)
-    (h : (proveAndBuild loc (lastRow loc) p retry prover).1 = .cert c r' tb) : BuildOK cfg l2 loc agg c tb := by
+    (hcl : p.claims = claimsIn l2 p.from_ p.to_) (c : ACert) (r' tb : Nat) (optOn : Bool)
+    (h : (proveAndBuild loc (lastRow loc) p retry prover optOn).1 = .cert c r' tb) : BuildOK cfg l2 loc agg c tb := by
   unfold proveAndBuild at h
+  split at h
+  · cases h
   split at h
   · cases h
   cases prover with
@@ -1091,7 +1093,7 @@ theorem buildFEP_spec (size : Params → Nat) (cfg : Cfg) (l2 : List L2Blk) (hw 
         exact finishFEP_spec cfg l2 hw loc agg hs hl hfb _ _ hfrom hft hto rfl rfl c r' tb h
       · rw [if_neg hp] at h
         rw [← hlast] at h
-        exact proveAndBuild_spec cfg l2 hw loc agg hs hl hfb _ _ prover hfrom hft hto rfl rfl c r' tb h
+        exact proveAndBuild_spec cfg l2 hw loc agg hs hl hfb _ _ prover hfrom hft hto rfl rfl c r' tb optOn h
     · rw [if_neg herr] at h
       simp only at h
       by_cases herr2 : r.status = .inError
@@ -1124,7 +1126,7 @@ theorem buildFEP_spec (size : Params → Nat) (cfg : Cfg) (l2 : List L2Blk) (hw 
         have hq' : { q with from_ := q.from_ } = q := rfl
         rw [hq', ← hlast] at h
         simp only at hq1 hq2
-        refine proveAndBuild_spec cfg l2 hw loc agg hs hl hfb q (r.retry + 1) prover ?_ (by rw [qfrom]; omega) hq2 ?_ ?_ c r' tb h
+        refine proveAndBuild_spec cfg l2 hw loc agg hs hl hfb q (r.retry + 1) prover ?_ (by rw [qfrom]; omega) hq2 ?_ ?_ c r' tb optOn h
         · unfold FromOK; rw [hlast]; simp only [herr2, if_true]; exact qfrom
         · have := congrArg Params.bridges hcut
           simp only [cutTo] at this
@@ -1154,7 +1156,7 @@ theorem buildFEP_spec (size : Params → Nat) (cfg : Cfg) (l2 : List L2Blk) (hw 
       have hq' : { q with from_ := q.from_ } = q := rfl
       rw [hq', ← hlast] at h
       simp only at hq1 hq2
-      refine proveAndBuild_spec cfg l2 hw loc agg hs hl hfb q 0 prover ?_ (by rw [qfrom]; omega) hq2 ?_ ?_ c r' tb h
+      refine proveAndBuild_spec cfg l2 hw loc agg hs hl hfb q 0 prover ?_ (by rw [qfrom]; omega) hq2 ?_ ?_ c r' tb optOn h
       · unfold FromOK; rw [hlast]; simp only [herr, if_false]; exact qfrom
       · have := congrArg Params.bridges hcut
         simp only [cutTo] at this
@@ -1184,7 +1186,7 @@ theorem buildFEP_spec (size : Params → Nat) (cfg : Cfg) (l2 : List L2Blk) (hw 
     have hq' : { q with from_ := q.from_ } = q := rfl
     rw [hq', ← hlast] at h
     simp only at hq1 hq2
-    refine proveAndBuild_spec cfg l2 hw loc agg hs hl hfb q 0 prover ?_ (by rw [qfrom]; omega) hq2 ?_ ?_ c r' tb h
+    refine proveAndBuild_spec cfg l2 hw loc agg hs hl hfb q 0 prover ?_ (by rw [qfrom]; omega) hq2 ?_ ?_ c r' tb optOn h
     · unfold FromOK; rw [hlast]; exact qfrom
     · have := congrArg Params.bridges hcut
       simp only [cutTo] at this
@@ -1769,6 +1771,14 @@ theorem step_inv (size : Params → Nat) (s : Sys) (hi : Inv s) (op : Op) (hop :
   | failRec => exact hi.of_eq rfl rfl rfl rfl rfl
   | prover p => exact hi.of_eq rfl rfl rfl rfl rfl
   | opt b => exact hi.of_eq rfl rfl rfl rfl rfl
+  | epochUnreadable =>
+    simp only [step, tickUnreadable]
+    split
+    · exact hi
+    · obtain ⟨f, hf, he⟩ := poll_map s
+      have h1 : Inv (poll s).1 := by
+        rw [he]; exact (inv_map_loc s hi f hf).of_eq rfl rfl rfl rfl rfl
+      exact h1.of_eq rfl rfl rfl rfl rfl
   | crash =>
     refine ⟨hi.l2wf, hi.ids, hi.closedPrefix, hi.chain, hi.sorted, hi.rows, fun h => by simp [step] at h, ?_,
       hi.l2sorted, hi.content, hi.startOK, hi.deposits, hi.counts, hi.fromGe⟩
